@@ -407,6 +407,12 @@ ASMJIT_FAVOR_SIZE Error init_func_detail(FuncDetail& func, const FuncSignature& 
               // Each stack argument occupies a multiple of the native register size - a 32-bit float takes 8 bytes
               // in 64-bit mode.
               uint32_t size = Support::align_up(TypeUtils::size_of(type_id), register_size);
+
+              // Vector arguments passed by stack are aligned to their size (16, 32, or 64 bytes).
+              if (TypeUtils::is_vec(type_id)) {
+                stack_offset = Support::align_up(stack_offset, size);
+              }
+
               arg.assign_stack_offset(int32_t(stack_offset));
               stack_offset += size;
             }
